@@ -2,6 +2,10 @@
 #include "harness/vh.hpp"
 #include "gen/gens.hpp"
 #include "randomx.h"
+#include "dataset.hpp"
+#include <sys/mman.h>
+#include <unistd.h>
+extern "C" int memfd_create(const char*, unsigned int);
 #include <xmmintrin.h>
 #include <array>
 #include <map>
@@ -16,10 +20,15 @@ struct FCase {
 };
 
 static const int CFGS[] = {0, RANDOMX_FLAG_JIT, RANDOMX_FLAG_HARD_AES, RANDOMX_FLAG_JIT | RANDOMX_FLAG_HARD_AES, RANDOMX_FLAG_V2, RANDOMX_FLAG_JIT | RANDOMX_FLAG_V2, RANDOMX_FLAG_HARD_AES | RANDOMX_FLAG_V2,
-	RANDOMX_FLAG_JIT | RANDOMX_FLAG_HARD_AES | RANDOMX_FLAG_V2, RANDOMX_FLAG_JIT | RANDOMX_FLAG_SECURE, RANDOMX_FLAG_JIT | RANDOMX_FLAG_SECURE | RANDOMX_FLAG_V2};
+	RANDOMX_FLAG_JIT | RANDOMX_FLAG_HARD_AES | RANDOMX_FLAG_V2, RANDOMX_FLAG_JIT | RANDOMX_FLAG_SECURE, RANDOMX_FLAG_JIT | RANDOMX_FLAG_SECURE | RANDOMX_FLAG_V2,
+	// fast mode (own VM classes: dataset read in the loop instead of SuperscalarHash) over a synthetic dataset - the oracle compares a VM with itself
+	RANDOMX_FLAG_FULL_MEM, RANDOMX_FLAG_FULL_MEM | RANDOMX_FLAG_JIT, RANDOMX_FLAG_FULL_MEM | RANDOMX_FLAG_JIT | RANDOMX_FLAG_HARD_AES | RANDOMX_FLAG_V2, RANDOMX_FLAG_FULL_MEM | RANDOMX_FLAG_HARD_AES | RANDOMX_FLAG_V2,
+	RANDOMX_FLAG_FULL_MEM | RANDOMX_FLAG_JIT | RANDOMX_FLAG_SECURE};
+static const int NCFGS = sizeof CFGS / sizeof CFGS[0];
+static randomx_dataset synthDs;
 static randomx_cache* cache = nullptr;
 static std::map<int, randomx_vm*> vms;
-static randomx_vm* vmFor(int cfg) { auto it = vms.find(cfg); if (it != vms.end()) return it->second; randomx_vm* v = randomx_create_vm((randomx_flags)CFGS[cfg], cache, nullptr); vms[cfg] = v; return v; }
+static randomx_vm* vmFor(int cfg) { auto it = vms.find(cfg); if (it != vms.end()) return it->second; randomx_vm* v = (CFGS[cfg] & RANDOMX_FLAG_FULL_MEM) ? randomx_create_vm((randomx_flags)CFGS[cfg], nullptr, &synthDs) : randomx_create_vm((randomx_flags)CFGS[cfg], cache, nullptr); if (!v) { fprintf(stderr, "vm creation failed\n"); abort(); } vms[cfg] = v; return v; }
 
 static const uint32_t DEFAULT_CSR = 0x1F80;
 
@@ -85,7 +94,16 @@ int main(int argc, char** argv) {
 	using namespace rc;
 	vh::registerCheck<FCase>("fpenv", [] {
 		return gen::resize(100, gen::apply([](uint32_t a, uint32_t b, uint32_t c, int cfg, int api, Bytes i0, Bytes i1) { return FCase{{a, b, c}, cfg, api, i0, i1}; },
-			genCsr(), genCsr(), genCsr(), gen::inRange(0, 10), gen::inRange(0, 2), vg::genBytesLen(gen::inRange(0, 100)), vg::genBytesLen(gen::inRange(0, 100))));
+			genCsr(), genCsr(), genCsr(), gen::inRange(0, NCFGS), gen::inRange(0, 2), vg::genBytesLen(gen::inRange(0, 100)), vg::genBytesLen(gen::inRange(0, 100))));
 	}, body, true);
-	return vh::harnessMain(argc, argv, [] { cache = randomx_alloc_cache(RANDOMX_FLAG_JIT); const char* k = "C13 key"; randomx_init_cache(cache, k, strlen(k)); });
+	return vh::harnessMain(argc, argv, [] {
+		cache = randomx_alloc_cache(RANDOMX_FLAG_JIT); const char* k = "C13 key"; randomx_init_cache(cache, k, strlen(k));
+		// synthetic complete dataset: a 64 MiB pseudo-random chunk mapped repeatedly (the real item count, no 2 GiB of memory)
+		const size_t chunk = 64u << 20; const size_t len = ((size_t)randomx_dataset_item_count() * 64 + 4095) / 4096 * 4096;
+		int fd = memfd_create("c13synth", 1); if (fd < 0 || ftruncate(fd, chunk) != 0) { perror("memfd"); abort(); }
+		uint8_t* w = (uint8_t*)mmap(nullptr, chunk, PROT_READ | PROT_WRITE, MAP_SHARED, fd, 0); vh::XorShift x(0xC13); x.fill(w, chunk); munmap(w, chunk);
+		uint8_t* base = (uint8_t*)mmap(nullptr, len, PROT_NONE, MAP_PRIVATE | MAP_ANONYMOUS | MAP_NORESERVE, -1, 0); if (base == MAP_FAILED) { perror("mmap"); abort(); }
+		for (size_t off = 0; off < len; off += chunk) if (mmap(base + off, std::min(chunk, len - off), PROT_READ, MAP_SHARED | MAP_FIXED, fd, 0) == MAP_FAILED) { perror("mmap chunk"); abort(); }
+		close(fd); synthDs.memory = base; synthDs.dealloc = nullptr;
+	});
 }
